@@ -154,6 +154,18 @@ func (valSet *ValidatorSet) Proposer() (proposer *Validator) {
 	return valSet.proposer.Copy()
 }
 
+// SetProposer restores the cached proposer of a set that was read back from its wire form
+// (the cache is not serialized). It reports whether the address belongs to the set.
+func (valSet *ValidatorSet) SetProposer(address []byte) bool {
+	for _, val := range valSet.Validators {
+		if bytes.Equal(val.Address, address) {
+			valSet.proposer = val
+			return true
+		}
+	}
+	return false
+}
+
 func (valSet *ValidatorSet) Hash() []byte {
 	if len(valSet.Validators) == 0 {
 		return nil
